@@ -433,8 +433,9 @@ def check_constraints(report, pm: PyModel):
     # _fields_mapping drops non-primitive fields of cross-package requests (K-map-samepkg)
     fm = pm.func("gapic.schema.wrappers.Method._fields_mapping")
     ok = False
-    nfm = nfunc(pm, fm, keep={"get_field"})
-    for fn_ in [nfm] + [n for n in ast.walk(nfm) if isinstance(n, ast.FunctionDef) and n is not nfm]:
+    from .common_rules import helper_views
+    views_ = helper_views(pm, fm, keep={"get_field"})
+    for fn_ in views_ + [n for v_ in views_ for n in ast.walk(v_) if isinstance(n, ast.FunctionDef) and n is not v_]:
         for guards, st in stmt_guards(fn_):
             if isinstance(st, ast.Expr) and isinstance(st.value, ast.Yield) or (isinstance(st, ast.Assign) and isinstance(st.targets[0], ast.Subscript)):
                 facts = {g for g in guards if g[0] != "for"}
